@@ -38,7 +38,7 @@ func main() { lib.Main("C35", run) }
 
 type scope struct {
 	MaxBlocks, MaxKids, MaxItems, MaxDepth, MaxInl, MaxNodes, MaxAtoms int
-	Atoms, Joins, Leaves, Indents, Quotes, Lists, Atx, Trails, Wheel, AtomWheel string
+	Atoms, Joins, Leaves, Indents, Quotes, Lists, Atx, Trails, Wheel, AtomWheel, Gaps string
 	Invariants                                                           []string
 }
 
@@ -46,8 +46,8 @@ func (s scope) cfg() []byte {
 	var b strings.Builder
 	fmt.Fprintf(&b, "CONSTANTS\n MaxBlocks = %d\n MaxKids = %d\n MaxItems = %d\n MaxDepth = %d\n MaxInl = %d\n MaxNodes = %d\n MaxAtoms = %d\n",
 		s.MaxBlocks, s.MaxKids, s.MaxItems, s.MaxDepth, s.MaxInl, s.MaxNodes, s.MaxAtoms)
-	fmt.Fprintf(&b, " AtomPool <- %s\n JoinSet <- %s\n LeafPool <- %s\n Indents = %s\n QuoteShapes <- %s\n ListShapes <- %s\n AtxShapes <- %s\n Trails = %s\n KindWheel <- %s\n AtomWheel <- %s\n",
-		s.Atoms, s.Joins, s.Leaves, s.Indents, s.Quotes, s.Lists, s.Atx, s.Trails, s.Wheel, s.AtomWheel)
+	fmt.Fprintf(&b, " AtomPool <- %s\n JoinSet <- %s\n LeafPool <- %s\n Indents = %s\n QuoteShapes <- %s\n ListShapes <- %s\n AtxShapes <- %s\n Trails = %s\n KindWheel <- %s\n AtomWheel <- %s\n Gaps = %s\n",
+		s.Atoms, s.Joins, s.Leaves, s.Indents, s.Quotes, s.Lists, s.Atx, s.Trails, s.Wheel, s.AtomWheel, s.Gaps)
 	b.WriteString("INIT Init\nNEXT Next\n")
 	for _, inv := range s.Invariants {
 		fmt.Fprintf(&b, "INVARIANT %s\n", inv)
@@ -58,38 +58,46 @@ func (s scope) cfg() []byte {
 func (s scope) describe() map[string]any {
 	return map[string]any{"MaxBlocks": s.MaxBlocks, "MaxKids": s.MaxKids, "MaxItems": s.MaxItems, "MaxDepth": s.MaxDepth,
 		"MaxInl": s.MaxInl, "MaxNodes": s.MaxNodes, "MaxAtoms": s.MaxAtoms, "atoms": s.Atoms, "joins": s.Joins,
-		"leaves": s.Leaves, "indents": s.Indents, "quotes": s.Quotes, "lists": s.Lists, "atx": s.Atx}
+		"leaves": s.Leaves, "indents": s.Indents, "gaps": s.Gaps, "quotes": s.Quotes, "lists": s.Lists, "atx": s.Atx}
 }
 
-var mInvariants = []string{"TypeOK", "FinishedOK", "HtmlOK", "EmitH"}
+var mInvariants = []string{"HtmlOK", "EmitH"} // TypeOK, PartialOK, FinishedOK of the shared model are checked by C36 on the same scopes
 
 func tinyScope() scope { // <= 2 blocks, <= 2 nodes, <= 2 atoms over the tiny pools
 	return scope{2, 1, 2, 1, 2, 2, 2, "TinyAtoms", "CoreJoins", "TinyLeaves", "{0}", "TinyQuotes", "TinyLists", "TinyAtx",
-		"{TRUE}", "FlatWheel", "FlatAtomWheel", mInvariants}
+		"{TRUE}", "FlatWheel", "FlatAtomWheel", "{0}", mInvariants}
+}
+func blankStartScope() scope { // empty items / items starting with a blank line, 1 or 2 blank lines, indented paragraph after; top level, in quotes, in items
+	return scope{2, 2, 2, 2, 1, 3, 1, "WordOnly", "SpOnly", "NoLeaves", "{0, 2, 3}", "TinyQuotes", "BlankLists", "TinyAtx",
+		"{TRUE}", "BlankWheel", "WordWheel", "{0, 1}", mInvariants}
+}
+func linkTailScope() scope { // one paragraph of <= 2 atoms: link / image destinations over parentheses in every order, titles in three styles
+	return scope{1, 1, 1, 1, 2, 1, 2, "TailAtoms", "SpOnly", "NoLeaves", "{0}", "TinyQuotes", "TinyLists", "TinyAtx",
+		"{TRUE}", "ParaWheel", "TailWheel", "{0}", mInvariants}
 }
 func lineStartScope() scope { // one paragraph: a word and tokens that look like block starts, soft breaks as written
 	return scope{1, 1, 1, 1, 2, 1, 2, "LineStartAtoms", "LineJoins", "NoLeaves", "{0}", "TinyQuotes", "TinyLists", "TinyAtx",
-		"{TRUE}", "ParaWheel", "LineAtomWheel", mInvariants}
+		"{TRUE}", "ParaWheel", "LineAtomWheel", "{0}", mInvariants}
 }
 func entityScope() scope { // one paragraph of <= 2 atoms over character references and escapes
 	return scope{1, 1, 1, 1, 2, 1, 2, "EntityAtoms", "CoreJoins", "NoLeaves", "{0}", "TinyQuotes", "TinyLists", "TinyAtx",
-		"{TRUE}", "ParaWheel", "EntityAtomWheel", mInvariants}
+		"{TRUE}", "ParaWheel", "EntityAtomWheel", "{0}", mInvariants}
 }
 func breakScope() scope { // one paragraph X <hard break> Y over every kind of neighbour
 	return scope{1, 1, 1, 1, 3, 1, 3, "BreakAtoms", "CoreJoins", "NoLeaves", "{0}", "TinyQuotes", "TinyLists", "TinyAtx",
-		"{TRUE}", "ParaWheel", "BreakAtomWheel", mInvariants}
+		"{TRUE}", "ParaWheel", "BreakAtomWheel", "{0}", mInvariants}
 }
 func looseScope(nodes int) scope { // lists with two blocks per item / two items: the lists that are loose in CommonMark
 	return scope{1, 2, 2, 2, 1, nodes, 2, "LooseAtoms", "CoreJoins", "TinyLeaves", "{0}", "TinyQuotes", "LooseLists", "TinyAtx",
-		"{TRUE}", "LooseWheel", "LooseAtomWheel", mInvariants}
+		"{TRUE}", "LooseWheel", "LooseAtomWheel", "{0}", mInvariants}
 }
 func coreFlatScope() scope {
 	return scope{2, 1, 2, 1, 2, 2, 2, "CoreAtoms", "CoreJoins", "CoreLeaves", "{0}", "CoreQuotes", "CoreLists", "TinyAtx",
-		"{TRUE}", "FlatWheel", "FlatAtomWheel", mInvariants}
+		"{TRUE}", "FlatWheel", "FlatAtomWheel", "{0}", mInvariants}
 }
 func simScope() scope {
 	return scope{3, 2, 2, 2, 3, 6, 9, "FullAtoms", "AllJoins", "FullLeaves", "{0, 1, 3}", "FullQuotes", "FullLists", "FullAtx",
-		"{TRUE, FALSE}", "FullWheel", "FullAtomWheel", []string{"FinishedOK", "HtmlOK", "EmitH"}}
+		"{TRUE, FALSE}", "FullWheel", "FullAtomWheel", "{0, 1}", []string{"HtmlOK", "EmitH"}}
 }
 
 type genDoc struct {
@@ -256,7 +264,7 @@ func run(c *lib.Ctx) error {
 		name string
 		sc   scope
 	}
-	exhs := []named{{"tiny", tinyScope()}, {"line-starts", lineStartScope()}, {"entities", entityScope()}, {"hard-breaks", breakScope()}, {"loose-lists", looseScope(c.Pick(3, 4))}}
+	exhs := []named{{"tiny", tinyScope()}, {"line-starts", lineStartScope()}, {"blank-start", blankStartScope()}, {"link-tails", linkTailScope()}, {"entities", entityScope()}, {"hard-breaks", breakScope()}, {"loose-lists", looseScope(c.Pick(3, 4))}}
 	if c.Thorough() {
 		exhs = append(exhs, named{"core-flat", coreFlatScope()})
 	}
@@ -264,8 +272,8 @@ func run(c *lib.Ctx) error {
 	if c.Thorough() {
 		sim.MaxDepth, sim.MaxNodes, sim.MaxAtoms = 3, 7, 10
 	}
-	nSim := c.Pick(2, 6)
-	perSim := c.Pick(200, 3500)
+	nSim := c.Pick(1, 6)
+	perSim := c.Pick(300, 3500)
 	bounds := map[string]any{"random": sim.describe(), "random_runs": nSim, "random_walks_per_run": perSim}
 	for _, e := range exhs {
 		bounds["exhaustive "+e.name] = e.sc.describe()
